@@ -1388,7 +1388,7 @@ Families ==
          FamRec("map", FMap, 3, 1, {"m"}, {5}),
          FamRec("struct", FStruct, 3, 0, {"m"}, {5}),    FamRec("clos", FClos \cup {"func1", "funcv", "ret"}, 4, 2, {"m"}, {1}),
          FamRec("defer", FDefer, 5, 2, {"m"}, {1}),      FamRec("panic", FPanic, 3, 2, {"m"}, {0, 5}),
-         FamRec("shadow", FShadow \cup {"for3"}, 3, 2, {"m"}, {1}),
+         FamRec("shadow", FShadow \cup {"for3", "swap"}, 2, 2, {"m"}, {1}),
          FamRec("pkginit", {"pkginit"}, 0, 0, {"m"}, {1}) }
     [] Tier = "mut" -> {  \* small programs whose every mutation site (and pair of sites) is enumerated (C06, C07)
          FamRec("assign", {"envint", "envstr", "asg", "opasg", "inc", "swap", "vardecl", "const", "declint", "arith"}, 1, 0, {"m"}, {2}),
